@@ -25,6 +25,11 @@ def is_self_string(e, v):
     return x
 
 
+def entry_core(prog):
+    from . import entry
+    return entry.core_parser(prog)
+
+
 def run(tier, replay=None):
     rep = common.new_report('C19', tier, 'other')
     prog = common.program('K2')
@@ -151,14 +156,13 @@ def run(tier, replay=None):
                    not bad and segs, detail='\n'.join(sorted(set(bad))), how='%d path(s)' % len(segs))
     # ---- FromStr is from_bytes on the bytes of the string (so "parsing" above is the parser of C02)
     fs = [n for n, b in prog.bodies.items() if b.get('impl') and b['impl']['self_ty'] == LI and 'str::FromStr' in b['impl']['trait'] and n.endswith('::from_str')]
-    fb = [n for n, b in prog.bodies.items() if b.get('impl') and b['impl']['self_ty'] == LI and not b['impl']['trait'] and n.endswith('::from_bytes')]
+    from . import c13
+    core = entry_core(prog)
     for fn in fs:
         analysed.append(fn)
-        e = pxm.PX(prog, opaque=set(fb))
-        segs = e.explore(fn)
-        ok = len(segs) == 1 and segs[0].kind == 'return' and segs[0].ret[0] in ('call', 'pure') and segs[0].ret[1] in fb and terms.access_path(segs[0].ret[2][0]) == (1, ())
-        rep.ob('serde:fromstr', 'SERDE-FROMSTR', fn, prog.bodies[fn]['span'], 'FromStr for LanguageIdentifier is from_bytes on the bytes of the string', ok,
-               detail='returns %s' % [e.short(s.ret, 200) for s in segs])
+        bad, npaths = c13.wiring_paths(prog, fn, 0, core, [])
+        rep.ob('serde:fromstr', 'SERDE-FROMSTR', fn, prog.bodies[fn]['span'], 'FromStr for LanguageIdentifier is from_bytes on the bytes of the string', not bad,
+               detail='\n'.join(bad[:4]), how='%d paths' % npaths)
     rep.floor('FromStr impl', len(fs), 1)
     # ---- panic freedom of the serde bodies themselves
     for fn in analysed:
